@@ -12,10 +12,19 @@ import (
 	"sort"
 	"strings"
 
+	"github.com/go-openapi/loads"
+
+	"github.com/ErdemOzgen/blackdagger/internal/client"
 	"github.com/ErdemOzgen/blackdagger/internal/config"
 	"github.com/ErdemOzgen/blackdagger/internal/dag"
+	dscheduler "github.com/ErdemOzgen/blackdagger/internal/dag/scheduler"
+	fdag "github.com/ErdemOzgen/blackdagger/internal/frontend/dag"
+	"github.com/ErdemOzgen/blackdagger/internal/frontend/gen/restapi"
+	"github.com/ErdemOzgen/blackdagger/internal/frontend/gen/restapi/operations"
+	"github.com/ErdemOzgen/blackdagger/internal/frontend/gen/restapi/operations/dags"
 	"github.com/ErdemOzgen/blackdagger/internal/logger"
 	"github.com/ErdemOzgen/blackdagger/internal/persistence"
+	dsclient "github.com/ErdemOzgen/blackdagger/internal/persistence/client"
 	"github.com/ErdemOzgen/blackdagger/internal/persistence/local"
 	"github.com/ErdemOzgen/blackdagger/internal/scheduler"
 	"github.com/ErdemOzgen/blackdagger/verifh/vh"
@@ -218,6 +227,23 @@ func clearDir(d string) {
 
 var quietLogger = logger.NewLogger(logger.NewLoggerArgs{Quiet: true})
 
+var apiSpec *loads.Document
+
+// newAPI: the generated API of the frontend with the DAG handlers of /repo configured on the given client
+func newAPI(cli client.Client) *operations.BlackdaggerAPI {
+	if apiSpec == nil {
+		spec, err := loads.Analyzed(restapi.SwaggerJSON, "")
+		if err != nil {
+			panic(err)
+		}
+		apiSpec = spec
+	}
+	api := operations.NewBlackdaggerAPI(apiSpec)
+	h := fdag.NewHandler(&fdag.NewHandlerArgs{Client: cli, LogEncodingCharset: "utf-8"}, nil, "/api/v1")
+	h.Configure(api)
+	return api
+}
+
 func observe(cdir string, f func() error) (o Obs) {
 	clearDir(cdir)
 	before := envMap()
@@ -309,6 +335,46 @@ func runC19(k int, stream string, planted []string, src *Y) *C19Case {
 	// the scheduler daemon's entry reader (initial scan of the DAGs directory)
 	c.Obs["entryReader"] = observe(cdir, func() error {
 		scheduler.New(&config.Config{DAGs: dagDir, LogDir: scratch, WorkDir: scratch}, quietLogger, nil)
+		return nil
+	})
+	// the display path through the CLIENT (details page, list page, API): it loads the DAG without evaluation and
+	// then builds an execution graph only to validate it (scheduler.NewExecutionGraph -> node.init on every step)
+	ds := dsclient.NewDataStores(dagDir, filepath.Join(scratch, "c19-data"), filepath.Join(scratch, "c19-suspend"), dsclient.DataStoreOptions{})
+	cli := client.New(ds, "", scratch, quietLogger)
+	c.Obs["Client.GetStatus"] = observe(cdir, func() error { return errOf(cli.GetStatus(caseFile)) })
+	c.Obs["Client.GetAllStatus"] = observe(cdir, func() error {
+		_, errs, err := cli.GetAllStatus()
+		if err == nil && len(errs) > 0 {
+			err = fmt.Errorf("%s", errs[0])
+		}
+		return err
+	})
+	c.Obs["Client.GetAllStatusPagination"] = observe(cdir, func() error {
+		_, _, err := cli.GetAllStatusPagination(dags.ListDagsParams{})
+		return err
+	})
+	c.Obs["Client.GetStatusByRequestID"] = observe(cdir, func() error {
+		d, err := dag.LoadWithoutEval(file)
+		if err != nil {
+			return err
+		}
+		return errOf(cli.GetStatusByRequestID(d, "verif-no-such-request"))
+	})
+	c.Obs["Client.GetDAGSpec"] = observe(cdir, func() error { return errOf(cli.GetDAGSpec(caseFile)) })
+	c.Obs["display-graph"] = observe(cdir, func() error {
+		d, err := dag.LoadWithoutEval(file)
+		if err != nil {
+			return err
+		}
+		return errOf(dscheduler.NewExecutionGraph(quietLogger, d.Steps...))
+	})
+	api := newAPI(cli)
+	c.Obs["API.GetDagDetails"] = observe(cdir, func() error {
+		api.DagsGetDagDetailsHandler.Handle(dags.GetDagDetailsParams{DagID: caseFile})
+		return nil
+	})
+	c.Obs["API.ListDags"] = observe(cdir, func() error {
+		api.DagsListDagsHandler.Handle(dags.ListDagsParams{})
 		return nil
 	})
 	// positive control: the evaluating entry point
